@@ -44,6 +44,7 @@ func runC29(c *core.Ctx) error {
 	bySeq := map[string]int{}
 	singles := make([]int, len(bases))
 	accepted, rejected, wcNo := 0, 0, 0
+	var rejectedCases []mcCase
 	maxSampled := c.Pick(150, 800)
 	run := func(sub []NamedBase, idx []int, depth int, sampleP float64, timeout time.Duration) error {
 		t0 := time.Now()
@@ -81,20 +82,7 @@ func runC29(c *core.Ctx) error {
 				accepted++
 			} else {
 				rejected++
-				r2, err := l.fresh(old, m.New)
-				if err != nil {
-					return err
-				}
-				if !r2.Accepted || r2.Panic != "" {
-					what := "linter rejects a documented safe evolution (" + logLabel(m.Log) + ")"
-					if r2.Panic != "" {
-						what = "linter panics on a documented safe evolution (" + logLabel(m.Log) + "): " + r2.Panic
-					}
-					c.Violate("linter-rejects/"+logLabel(m.Log), what+": "+strings.Join(r2.Messages[:min(1, len(r2.Messages))], ""),
-						map[string]any{"old": RenderBody(old), "new": RenderBody(m.New), "base": bases[m.B-1].Name, "log": m.Log, "messages": r2.Messages, "old_model": old, "new_model": m.New})
-				} else {
-					return fmt.Errorf("rejection of %s not reproduced in a fresh process", logLabel(m.Log))
-				}
+				rejectedCases = append(rejectedCases, m)
 			}
 			if rnd.Float64() < sampleP && len(sampled) < maxSampled {
 				sampled = append(sampled, m)
@@ -135,6 +123,42 @@ func runC29(c *core.Ctx) error {
 			return err
 		}
 	}
+	// every rejection is reproduced in a fresh process and attributed to the shortest sequence that explains it
+	sort.SliceStable(rejectedCases, func(a, b int) bool { return len(rejectedCases[a].Log) < len(rejectedCases[b].Log) })
+	roots := map[string]bool{}
+	explained := 0
+	for _, m := range rejectedCases {
+		isExplained := false
+		if len(m.Log) > 1 {
+			for _, e := range m.Log {
+				if roots[e.label()] {
+					isExplained = true
+				}
+			}
+		}
+		if isExplained {
+			explained++
+			continue
+		}
+		old := bases[m.B-1].S
+		r2, err := l.fresh(old, m.New)
+		if err != nil {
+			return err
+		}
+		if r2.Accepted && r2.Panic == "" {
+			return fmt.Errorf("rejection of %s not reproduced in a fresh process", logLabel(m.Log))
+		}
+		if len(m.Log) == 1 {
+			roots[m.Log[0].label()] = true
+		}
+		what := "linter rejects a documented safe evolution (" + logLabel(m.Log) + ")"
+		if r2.Panic != "" {
+			what = "linter panics on a documented safe evolution (" + logLabel(m.Log) + "): " + r2.Panic
+		}
+		c.Violate("linter-rejects/"+logLabel(m.Log), what+": "+strings.Join(r2.Messages[:min(1, len(r2.Messages))], ""),
+			map[string]any{"old": RenderBody(old), "new": RenderBody(m.New), "base": bases[m.B-1].Name, "log": m.Log, "messages": r2.Messages, "old_model": old, "new_model": m.New})
+	}
+	c.Set("rejected_sequences_explained_by_a_single_edit_finding", explained)
 	c.Set("impl_accepted", accepted)
 	c.Set("impl_rejected", rejected)
 	c.Set("cases_by_action", byAction)
